@@ -13,6 +13,8 @@ from liquid2.builtin import Filter
 from liquid2.builtin import KeywordArgument
 from liquid2.builtin import PositionalArgument
 from liquid2.builtin import StringLiteral
+from liquid2.exceptions import TranslationKeyError
+from liquid2.exceptions import TranslationValueError
 from liquid2.filter import int_arg
 from liquid2.messages import MESSAGES
 from liquid2.messages import MessageText
@@ -77,7 +79,13 @@ class BaseTranslateFilter:
         # Missing variables get replaced by the current `Undefined` type and we're
         # converting all values to a string, so a KeyError or a ValueError should
         # be impossible.
-        return message_text % _vars
+        try:
+            return message_text % _vars
+        except KeyError as err:
+            raise TranslationKeyError(str(err), token=None) from err
+        except (ValueError, TypeError) as err:
+            # For example, a stray "%" in the message text.
+            raise TranslationValueError(str(err), token=None) from err
 
     def _resolve_translations(self, context: RenderContext) -> Translations:
         return cast(
